@@ -27,6 +27,10 @@ def run(prog, tier):
     CR.frame_reader_rule(prog, res)
     CR.label_binding_rule(prog, res)
     CR.load_order_rule(prog, res)
+    # the data section is sized from the header after updateHeader() reconciled it with the parameters just read:
+    # the reconciliation table is part of what a load depends on
+    import p_c05
+    p_c05.sync_table_rule(prog, res, rule='load-reconcile')
     CR.copy_completeness_rule(prog, res)
     # strings are stored trimmed: the trimmer must empty a cell made only of padding
     import p_c11
